@@ -73,7 +73,7 @@ func TestC04(t *testing.T) {
 		r.Violation(map[string]string{"kind": "quic_grease_version_constant"}, "GetGREASEVersion never varied", nil)
 	}
 	// marshalled transport parameters with GREASE
-	for i := 0; i < mon.Pick(500, 20000); i++ {
+	for i := 0; i < mon.Pick(2000, 20000); i++ {
 		rg := Sub("C04tp", i)
 		tps := tls.TransportParameters{
 			tls.InitialMaxData(rg.Uint64() >> 2),
@@ -103,7 +103,7 @@ func TestC04(t *testing.T) {
 	}
 
 	// (c) parrots and fingerprinted copies
-	conns := mon.Pick(48, 400)
+	conns := mon.Pick(128, 400)
 	type target struct {
 		name string
 		id   tls.ClientHelloID
@@ -130,6 +130,53 @@ func TestC04(t *testing.T) {
 			f := &tls.Fingerprinter{}
 			return f.FingerprintClientHello(rec)
 		}})
+	}
+	// specs whose GREASE key share carries a body of another length than the parrots' single
+	// byte: custom specs derived from a parrot's spec, and fingerprinted copies of a
+	// captured hello the harness re-encoded with such a share
+	for _, n := range []int{2, 3, 16, 32} {
+		n := n
+		for _, pn := range []string{"Chrome_120", "Chrome_83"} {
+			p := ParrotByName(pn)
+			targets = append(targets, target{fmt.Sprintf("custom:%s+grease-share-%dB", pn, n), tls.HelloCustom, func() (*tls.ClientHelloSpec, error) {
+				sp, err := tls.UTLSIdToSpec(p.ID)
+				if err != nil {
+					return nil, err
+				}
+				for _, e := range sp.Extensions {
+					if ks, ok := e.(*tls.KeyShareExtension); ok {
+						for i := range ks.KeyShares {
+							if wire.IsGREASE(uint16(ks.KeyShares[i].Group)) {
+								ks.KeyShares[i].Data = make([]byte, n)
+							}
+						}
+					}
+				}
+				return &sp, nil
+			}})
+			raw, _, err, _ := buildHello(&tls.Config{ServerName: "example.test", OmitEmptyPsk: true}, p.ID, nil)
+			if err != nil {
+				continue
+			}
+			ch0, err := wire.ParseClientHello(raw)
+			if err != nil {
+				continue
+			}
+			var shares []byte
+			for _, ks := range ch0.KeyShares {
+				k := ks.Key
+				if wire.IsGREASE(ks.Group) {
+					k = make([]byte, n)
+				}
+				shares = append(shares, append(be16(ks.Group), vec16(k)...)...)
+			}
+			msg := marshalCH(ch0, setExt(cloneExts(ch0.Exts), wire.ExtKeyShare, vec16(shares)), true)
+			rec := recordOf(msg)
+			targets = append(targets, target{fmt.Sprintf("fp:%s+grease-share-%dB", pn, n), tls.HelloCustom, func() (*tls.ClientHelloSpec, error) {
+				f := &tls.Fingerprinter{}
+				return f.FingerprintClientHello(rec)
+			}})
+		}
 	}
 	greaseTargets := 0
 	for _, tg := range targets {
